@@ -50,14 +50,35 @@ def gen(rng, neutral=False):
         elif how < 0.8:
             table["index"] = {"levels": [
                 {"name": "k0", "phys": "object", "values": [rng.choice(["p", "q"]) for _ in range(n)]},
-                {"name": "k1", "phys": rng.choice(["int64", "datetime"]),
+                {"name": "k1", "phys": rng.choice(["int64", "datetime", "float64"]),
                  "values": None}]}
             lv = table["index"]["levels"][1]
             lv["values"] = rng.sample(range(50), n) if lv["phys"] == "int64" else \
-                rng.sample(G.POOL["datetime"], n)
+                rng.sample(G.POOL["datetime"], n) if lv["phys"] == "datetime" else \
+                [x + 0.5 for x in rng.sample(range(50), n)]
+            if rng.random() < 0.5:
+                # numeric first level: mixed int / float levels render differently
+                table["index"]["levels"][0] = {"name": "k0", "phys": "int64",
+                                               "values": [rng.choice([3019, 7]) for _ in range(n)]}
         else:
             table["index"] = None
     muts = G.mutate(rng, spec, table, k=rng.choice([1, 2, 2, 3]))
+    if spec["kind"] == "frame" and not neutral and table["columns"] and rng.random() < 0.25 \
+            and all(c["phys"] in ("int64", "float64") and None not in c["values"] for c in table["columns"]):
+        # a dataframe-level check failing on some rows (table-shaped failure cases)
+        if not spec.get("checks"):
+            spec["checks"] = [G.gen_check(rng, "float64")]
+        bad = [x for x in G.POOL["float64"] if not M.check_cell(spec["checks"][0], x)]
+        col = rng.choice(table["columns"])
+        if bad and col["values"]:
+            v = rng.choice(bad)
+            col["values"][rng.randrange(len(col["values"]))] = int(v) if col["phys"] == "int64" else v
+            muts.append(("frame_check", col["name"]))
+        if not spec.get("index") and rng.random() < 0.7:
+            n2 = len(col["values"])
+            table["index"] = {"levels": [
+                {"name": "k0", "phys": "int64", "values": [rng.choice([3019, 7, 8]) for _ in range(n2)]},
+                {"name": "k1", "phys": "float64", "values": [x + 0.5 for x in rng.sample(range(50), n2)]}]}
     typed = copy.deepcopy(table)
     opts = []
     if rng.random() < 0.35 and spec["kind"] == "frame":
@@ -108,7 +129,7 @@ def pandas_case(run, rng):
                      "coercion": opts, "model_bad_rows": sorted(v.bad_rows),
                      "model_non_row_errors": [e.reason for e in non_row], "impl": out.kind})
     run.count(f"pandas:{spec['kind']}:{out.kind}")
-    if v.accept is None or not v.exact or C.has_dup_labels(table):
+    if v.accept is None or not v.rows_known or C.has_dup_labels(table):
         run.count("undecided:model_not_exact")
         return
     idx = data.index
@@ -200,7 +221,7 @@ def polars_case(run, rng):
     non_row = [e for e in v.errors if e.cells is None or e.reason == "WRONG_DATATYPE"]
     run.case(canon_hash(["polars", spec, table]), v.accept is False, sample=None)
     run.count(f"polars:{out.kind}")
-    if v.accept is None or not v.exact:
+    if v.accept is None or not v.rows_known:
         run.count("undecided:model_not_exact")
         return
     if out.kind == "exc":
